@@ -264,6 +264,39 @@ pub fn run(ctx: &'static Ctx) {
             l.fail(ctx, idx, v, || icase(h, *pos, &V::t(name), val));
         }
     });
+    // several unknown members in one host at once (counters, fixed-size bookkeeping)
+    let mut mcases: Vec<(usize, usize, u8)> = Vec::new(); // (host, count, placement 0 = front, 1 = back, 2 = interleaved)
+    for hi in 0..hosts.len() {
+        for k in [2usize, 3, 6, 7, 8, 9, 15, 16, 17, 32, 33, 64, 100] {
+            for placement in 0..3u8 {
+                mcases.push((hi, k, placement));
+            }
+        }
+    }
+    let mr = &mcases;
+    sweep(ctx, "unknown member insertion: many unknown members in one map", mcases.len() as u64, "2..=100 distinct unknown members (mixed value kinds) added to one host map at the front, at the back or interleaved with the known members", move |idx, l| {
+        let (hi, k, placement) = mr[idx as usize];
+        let h = &hr[hi];
+        let vals = [V::Bool(true), V::U(7), V::t("v"), V::A(vec![V::U(1), V::t("usb")]), V::M(vec![(V::t("a"), V::B(vec![1, 2, 3]))]), V::Null];
+        let mut with = h.wire.clone();
+        for j in 0..k {
+            let pos = match placement {
+                0 => 0,
+                1 => usize::MAX,
+                _ => (j * 2 + 1).min(h.len + j),
+            };
+            with = treewalk::inserted(&with, &h.path, pos, V::t(&format!("unk{:03}", j)), vals[j % vals.len()].clone());
+        }
+        let bytes = h.target.bytes(&with);
+        l.nontrivial += 1;
+        let got = h.target.observe_bytes(&bytes);
+        let ok = got == h.baseline;
+        l.bump(if ok { "identical" } else { "differs" });
+        if !ok {
+            let v = Verdict::fail(format!("{}|{}|many-unknown-members|{}", P, h.target.name(), got.class()), format!("same as without the unknown members: {}", h.baseline.show()), format!("{} with {} unknown members (placement {})", got.show(), k, placement));
+            l.fail(ctx, idx, v, || json!({"kind": "unknown-member", "target": h.target.to_json(), "host": h.label, "count": k, "with": hex(&bytes), "without": hex(&h.target.bytes(&h.wire))}));
+        }
+    });
     // unknown values that fill the message up to the 7609-byte limit (and half of it)
     let mut bcases: Vec<(usize, usize, V)> = Vec::new();
     for (hi, h) in hosts.iter().enumerate() {
